@@ -1,7 +1,7 @@
 (* C19 -- property theorems.  Statements + `exact` only; proofs live in Proofs/C19.v.
    The definitions are those of Model/C19.v, which the correspondence of harness/props/c19.py
    evaluates on every generated document next to load_mei / load_kern (check_doc, check_kern_pitch). *)
-From PV Require Import Lib.Base Model.C19 Model.C19_mei Model.C19_disp Model.C19_kern Proofs.C19 Proofs.C19_export Proofs.C19_spine Proofs.C19_mei Proofs.C19_disp Proofs.C19_kern Model.C19_hist Proofs.C19_hist.
+From PV Require Import Lib.Base Model.C19 Model.C19_mei Model.C19_disp Model.C19_kern Proofs.C19 Proofs.C19_export Proofs.C19_spine Proofs.C19_mei Proofs.C19_disp Proofs.C19_kern Model.C19_hist Proofs.C19_hist Gen.C19_tables Model.C19_attr Proofs.C19_attr.
 From Coq Require Import QArith Qround Ascii.
 #[local] Open Scope Z_scope.
 
@@ -389,3 +389,118 @@ Print Assumptions history_position_cache_single_ok.
 Theorem history_position_cache_refuted : exists notes ops, k_run [] (HS notes [] false) ops <> h_run (HS notes [] false) ops.
 Proof. exact k_run_refuted_lemma. Qed.
 Print Assumptions history_position_cache_refuted.
+
+(* ---------------------------------------------------------------- attribute-level decoding of one MEI element (Model/C19_attr.v, round j) *)
+
+(* tuplet ratio: an element takes the ratio of the ONE <tuplet> among its ancestors at whatever depth -- any number of
+   beams or other containers between the tuplet and the element (pre) and around the tuplet (post) *)
+Theorem mei_tuplet_any_depth : forall self children pre post t d ty dots r,
+  attr "dur" self = Some d -> slookup d mei_durs_to_symbolic = Some ty -> dots_attr self = Some dots ->
+  Forall (fun n => is_tuplet n = false) pre -> Forall (fun n => is_tuplet n = false) post ->
+  is_tuplet t = true -> tuplet_ratio t = Some r ->
+  get_symbolic_duration (El self children (pre ++ t :: post)) = Some (SD ty dots (Some r)).
+Proof. exact mei_tuplet_any_depth_lemma. Qed.
+Print Assumptions mei_tuplet_any_depth.
+
+(* ... no ratio without a tuplet ancestor ... *)
+Theorem mei_no_tuplet : forall self children anc d ty dots,
+  attr "dur" self = Some d -> slookup d mei_durs_to_symbolic = Some ty -> dots_attr self = Some dots ->
+  Forall (fun n => is_tuplet n = false) anc ->
+  get_symbolic_duration (El self children anc) = Some (SD ty dots None).
+Proof. exact mei_no_tuplet_lemma. Qed.
+Print Assumptions mei_no_tuplet.
+
+(* ... and two tuplet ancestors anywhere in the chain are rejected (the loader raises; outside the supported subset) *)
+Theorem mei_nested_tuplets_rejected : forall self children a t1 b t2 c,
+  is_tuplet t1 = true -> is_tuplet t2 = true ->
+  get_symbolic_duration (El self children (a ++ t1 :: b ++ t2 :: c)) = None.
+Proof. exact mei_nested_tuplets_rejected_lemma. Qed.
+Print Assumptions mei_nested_tuplets_rejected.
+
+(* the lookup on the direct parent only (seeded change b) contradicts mei_tuplet_any_depth: tuplet > beam > note *)
+Theorem mei_tuplet_parent_only_refuted :
+  exists self children pre post t d ty dots r,
+    attr "dur" self = Some d /\ slookup d mei_durs_to_symbolic = Some ty /\ dots_attr self = Some dots /\
+    Forall (fun n => is_tuplet n = false) pre /\ Forall (fun n => is_tuplet n = false) post /\
+    is_tuplet t = true /\ tuplet_ratio t = Some r /\
+    get_symbolic_duration_parent_only (El self children (pre ++ t :: post)) <> Some (SD ty dots (Some r)).
+Proof. exact mei_tuplet_parent_only_refuted_lemma. Qed.
+Print Assumptions mei_tuplet_parent_only_refuted.
+
+(* _duration_info on the ATTRIBUTES: whatever tick count the loader accepts for an element that is no grace note and
+   carries no @dur.ppq is divs x the duration its @dur, @dots and enclosing tuplet denote -- for the integral values ... *)
+Theorem mei_attr_duration_denotes : forall divs e k sd v,
+  duration_info divs e = Some (k, sd) -> attr "grace" (el_self e) = None -> attr "dur.ppq" (el_self e) = None ->
+  slookup (sd_type sd) symbolic_to_int_durs = Some (inject_Z v) -> 0 < v -> 0 < sd_actual sd ->
+  (inject_Z k == inject_Z divs * den_dur v (sd_dots0 sd) (sd_actual sd) (sd_normal sd))%Q.
+Proof. exact mei_attr_duration_denotes_lemma. Qed.
+Print Assumptions mei_attr_duration_denotes.
+
+(* ... and for any positive table value q (breve = 1/2, long = 1/4 of the reciprocal scale) *)
+Theorem mei_attr_duration_denotes_q : forall divs e k sd q,
+  duration_info divs e = Some (k, sd) -> attr "grace" (el_self e) = None -> attr "dur.ppq" (el_self e) = None ->
+  slookup (sd_type sd) symbolic_to_int_durs = Some q -> (0 < q)%Q -> 0 < sd_actual sd ->
+  (inject_Z k == inject_Z divs *
+     ((4 / q) * dot_factor (sd_dots0 sd) * (inject_Z (sd_normal sd) / inject_Z (sd_actual sd))))%Q.
+Proof. exact mei_attr_duration_denotes_q_lemma. Qed.
+Print Assumptions mei_attr_duration_denotes_q.
+
+(* an element with @grace (any value) lasts no time, whatever else it carries *)
+Theorem mei_attr_grace_zero : forall divs e k sd g,
+  attr "grace" (el_self e) = Some g -> duration_info divs e = Some (k, sd) -> k = 0.
+Proof. exact mei_attr_grace_zero_lemma. Qed.
+Print Assumptions mei_attr_grace_zero.
+
+(* the tables as the loader holds them NOW (reflected at every run): every @dur value of mei_dur_spec is decoded to the
+   reciprocal value it denotes, every accidental of mei_accid_spec to its alteration (complete finite domains) *)
+Theorem mei_dur_values_denote :
+  forallb (fun p : string * Q =>
+             match (ty <- slookup (fst p) mei_durs_to_symbolic ;; slookup ty symbolic_to_int_durs) with
+             | Some q => Qeq_bool q (snd p) | None => false end) mei_dur_spec = true.
+Proof. exact mei_dur_values_denote_lemma. Qed.
+Print Assumptions mei_dur_values_denote.
+
+Theorem mei_accid_values_denote :
+  forallb (fun p : string * Z => match sign_alter (fst p) with Some (Some a) => a =? snd p | _ => false end)
+          mei_accid_spec = true.
+Proof. exact mei_accid_values_denote_lemma. Qed.
+Print Assumptions mei_accid_values_denote.
+
+(* spelling: wherever the accidental s is written -- @accid, @accid.ges, @accid or @accid.ges of an <accid> child that
+   may follow other children -- and however often, as long as the places agree, the note gets the alteration of s *)
+Theorem mei_accid_wherever_written : forall e s a,
+  sign_alter s = Some a -> accid_sources e <> [] -> Forall (eq s) (accid_sources e) -> accid_int e = Some a.
+Proof. exact mei_accid_wherever_written_lemma. Qed.
+Print Assumptions mei_accid_wherever_written.
+
+(* ... and a note without any of them has no alteration (None, not an error) *)
+Theorem mei_no_accid : forall e,
+  attr "accid" (el_self e) = None -> attr "accid.ges" (el_self e) = None -> find is_accid (el_children e) = None ->
+  accid_int e = Some None.
+Proof. exact mei_no_accid_lemma. Qed.
+Print Assumptions mei_no_accid.
+
+(* dropping the inner test (the child's @accid only) contradicts it: <note><artic/><accid accid.ges="f"/></note> *)
+Theorem mei_accid_child_written_only_refuted :
+  exists e s a, sign_alter s = Some a /\ accid_sources e <> [] /\ Forall (eq s) (accid_sources e) /\
+                accid_int_child_written_only e <> Some a.
+Proof. exact mei_accid_child_written_only_refuted_lemma. Qed.
+Print Assumptions mei_accid_child_written_only_refuted.
+
+(* GLUE.  A layer given as its XML elements with @dur (notes, chords, rests, spaces; flattened in document order, each
+   with its own ancestors) run through _duration_info on the ATTRIBUTES is the layer run of the traversal model on the
+   abstract elements the attributes stand for (mels_of): mei_load_refines therefore speaks about the file's attributes *)
+Theorem mei_layer_attr_refines : forall divs mr es ms pos,
+  mels_of es = Some ms -> layer_run_attr divs pos es = layer_run divs mr pos ms.
+Proof. exact layer_run_attr_refines. Qed.
+Print Assumptions mei_layer_attr_refines.
+
+(* ... and, chained with the refinement proof of the traversal: every element of such a layer (no @dur.ppq) starts and
+   lasts divs x what @dur, @dots, the tuplet among its ancestors and @grace denote, position from the order *)
+Theorem mei_layer_attr_denotes : forall divs mr mlen es ms pos t rows pos',
+  0 < divs -> repr divs mr mlen -> mels_of es = Some ms ->
+  Forall (fun e => attr "dur.ppq" (el_self e) = None) es -> repr divs pos t ->
+  layer_run_attr divs pos es = Some (rows, pos') ->
+  Forall2 (row_rel divs) rows (den_rows mlen t (map ml_ev ms)) /\ repr divs pos' (layer_end mlen t (map ml_ev ms)).
+Proof. exact mei_layer_attr_denotes_lemma. Qed.
+Print Assumptions mei_layer_attr_denotes.
